@@ -11,5 +11,6 @@ func init() {
 		e.RCommentsNotShared()
 		e.RAstOrder()
 		e.RFileExtent()
+		e.RPerFileReset()
 	})
 }
